@@ -506,6 +506,8 @@ def _coll_oracle(interp, env, f, args, t, bb, path):
             # an unknown length: what is left is not known - the contents become one undecided element rather than staying as they were
             view_set(interp, v0, [TOP])
             return unit
+        if nm in ("reserve", "reserve_exact", "shrink_to_fit", "shrink_to") and sa == "alloc::vec::Vec":
+            return unit          # capacity only
         if k == "alloc::vec::Vec::clear":
             view_set(interp, v0, [])
             return unit
